@@ -17,7 +17,7 @@ SCOPE = ("default_storage, reusable_storage, reusable_storage_mtsafe (alloc/deal
 ASSUMPTIONS = ["reusable_storage, placement_alloc and reusable_buffer_storage serve one live frame at a time and placement memory is large "
                "enough (documented usage contract; `contract_ok` hypothesis in the theorems; violating ops are refused by model and harness alike)",
                "one stack_storage object (and its alloca area) per coroutine call, as in scheduler.h:242",
-               "st_mtc: interleaving at the granularity of the busy_x / busy_g / busy_s hook points, sequentially consistent; the memory-order "
+               "st_mtc: interleaving at the granularity of the busy_x / busy_g / busy_n / busy_s hook points and at every operation on the atomic _busy (std::atomic intercepted in the harness), sequentially consistent; the memory-order "
                "aspect of _busy is C03's subject",
                "the factory of the extra object does not throw",
                "std::vector growth follows libstdc++ (_M_default_append: new capacity = max(2*size, n))"]
@@ -177,7 +177,7 @@ def gen_mt(seed, tier):
             if rng.random() < 0.05: p.append([-1, 0])          # finish with nothing left: dropped on both sides
             if rng.random() < 0.05: p.insert(0, [0, 0])        # size 0: dropped on both sides
             progs.append(p)
-        L = rng.choice([0, 6, 12, 20, 30, 45])
+        L = rng.choice([0, 8, 16, 28, 40, 60])
         style = rng.random()
         if style < 0.5: sched = [rng.randint(0, 5) for _ in range(L)]
         elif style < 0.8:
@@ -199,7 +199,7 @@ def gen_mt(seed, tier):
             for _ in range(rng.randint(1, 3)):
                 p += [small if rng.random() < 0.8 else big, F] if rng.random() < 0.7 else [small, small, F, F]
             progs.append(p)
-        L = rng.choice([10, 16, 24, 32])
+        L = rng.choice([14, 22, 32, 44])
         if rng.random() < 0.5: sched = [rng.randint(0, 5) for _ in range(L)]
         else:
             sched = []
